@@ -491,13 +491,17 @@ sys.exit(M.main(argv))
 '''
 
 
-def invoke_subprocess(app, argv, cwd, step=None):
-    """-> (returncode, stdout bytes, stderr text)"""
+def invoke_subprocess(app, argv, cwd, step=None, locale=None):
+    """-> (returncode, stdout bytes, stderr text); locale='C': a process whose locale encoding is not UTF-8
+    (LC_ALL=C with Python's UTF-8 mode and locale coercion switched off -- what a legacy 8-bit locale or a Windows code page is)"""
     repo = os.environ.get('NBDIME_REPO', '/repo')
     env = {k: v for k, v in os.environ.items() if not k.startswith(('JUPYTER', 'PYTHON', 'NBDIME'))}
     home = os.path.join(os.path.dirname(cwd), 'home')
     env.update({'PYTHONPATH': repo + os.pathsep + os.path.join(_HERE, 'stubs'), 'HOME': home, 'JUPYTER_CONFIG_DIR': os.path.join(home, '.jupyter'),
                 'JUPYTER_CONFIG_PATH': os.path.join(home, '.jupyter'), 'PYTHONDONTWRITEBYTECODE': '1', 'PYTHONIOENCODING': 'utf8'})
+    if locale == 'C':
+        env.update({'LC_ALL': 'C', 'LANG': 'C', 'PYTHONUTF8': '0', 'PYTHONCOERCECLOCALE': '0'})
+        del env['PYTHONIOENCODING']
     py = sys.executable or os.path.join(_HERE, '.venv', 'bin', 'python')
     if step:
         cmd = [py, '-c', _BOOT, app, step] + list(argv)
